@@ -1,0 +1,26 @@
+//! `RwLock` facade over `loom::sync::RwLock` (cargo feature `verif-loom`), so
+//! that a controlled scheduler sees every access to a mutable cell.
+use std::sync::LockResult;
+
+#[derive(Debug)]
+pub struct RwLock<T>(loom::sync::RwLock<T>);
+
+impl<T> RwLock<T> {
+    pub fn new(value: T) -> Self {
+        Self(loom::sync::RwLock::new(value))
+    }
+
+    pub fn read(&self) -> LockResult<loom::sync::RwLockReadGuard<'_, T>> {
+        self.0.read()
+    }
+
+    pub fn write(&self) -> LockResult<loom::sync::RwLockWriteGuard<'_, T>> {
+        self.0.write()
+    }
+}
+
+impl<T> From<T> for RwLock<T> {
+    fn from(value: T) -> Self {
+        Self::new(value)
+    }
+}
